@@ -1098,8 +1098,8 @@ def check(run: common.Run):  # noqa: C901
 
     results = common.run_case_files(files)
     disagreements = collect(results, files, blocks)
-    n_resolve = sum(len(bl) for fb in b1 + b2 for bl in fb[:1]) if False else \
-        sum(len(lbls) for fb in (b1 + b2) for lbls in fb if lbls and lbls[0][0] in ("resolve", "resolve-client", "module-error"))
+    n_resolve = sum(len(lbls) for fb in (b1 + b2) for lbls in fb
+                    if lbls and lbls[0][0] in ("resolve", "resolve-client", "module-error"))
 
     # ---- 4. deterministic sweep with the property oracle (seed independent)
     kf = common.load_findings(PID)
@@ -1191,7 +1191,7 @@ def failing_input_search(impl, wd, disagreements, rnd, kf):
     for d in disagreements[:60]:
         if d[0] in SITE and len(d) >= 5 and d[1] == "case":
             names = sorted(loaded_names(d[2]) or [])
-            items.append((d[4], [(d[2].replace("\n(", "\nprint(", 1) if False else d[2], names, [d[0], "format_code"])]))
+            items.append((d[4], [(d[2], names, [d[0], "format_code"])]))
         elif len(d) == 4 and d[1] == "case":
             names = sorted(loaded_names(d[2]) or [])
             items.append((st, [(d[2], names, [d[0], "format_code"])]))
